@@ -57,6 +57,8 @@ static inline int m_dwarf_nextcu(void *dw, unsigned long off, unsigned long *nex
   return 1;
 }
 static inline void m_throw_libdw(void) { verif_raised = 3; }
+#ifdef C02_DWIT
 static inline all_dies_iterator all_dies_iterator_copy(const all_dies_iterator *p) { return *p; }   /* the vector model is an inline array: struct copy is a deep copy */
 static inline cu_iterator cu_iterator_copy(const cu_iterator *p) { return *p; }
+#endif
 #endif
